@@ -22,7 +22,8 @@ EXTENDS Naturals, Sequences, FiniteSets, TLC, SequencesExt
 
 CONSTANTS Rules, MaxLen, Shared
 
-User   == {"assign", "callkw", "loop", "ifret", "nested", "compr", "strexpr"}
+\* "annassign": an annotated assignment, "bareann": a bare annotation (`pending: list`) - statements like any other in a body
+User   == {"assign", "callkw", "loop", "ifret", "nested", "compr", "strexpr", "annassign", "bareann"}
 FnTok  == User \cup {"ret", "bareret"}
 ArgTok == User \cup {"parserassign"}
 SeqUpTo(S, n) == UNION {[1..j -> S] : j \in 0..n}
@@ -55,7 +56,7 @@ CarryArg(b) ==
 \* (Shared = FALSE, the code since "fix: emitters deepcopy"); with Shared = TRUE the class emitter rewrites the held
 \* statements themselves, so a parameter reference becomes self.<name> ("rewritten") in every later conversion of the
 \* same description (Body_shared.cfg shows TLC finding that).
-HasParamRef == {"assign", "callkw", "loop", "ifret", "ret"}
+HasParamRef == {"assign", "callkw", "loop", "ifret", "ret", "annassign"}
 RewriteInPlace(b) == [i \in 1..Len(b) |-> IF b[i] \in HasParamRef THEN "rewritten" ELSE b[i]]
 VARIABLES kind, body, held, out, rehomed
 vars == <<kind, body, held, out, rehomed>>
